@@ -32,7 +32,7 @@ def extra_positions(G, L):
     return sorted(set(pos))
 
 
-def make_env(nbars, L, d, space, extras):
+def make_env(nbars, L, d, space, extras, late=False):
     reset_clock()
     G = grid(nbars)
     contracts = [A, B]
@@ -49,6 +49,10 @@ def make_env(nbars, L, d, space, extras):
     else:
         sp = DiscretePortfolio(contracts, DISC_ALLOC[space])
     env = TradingEnv(sp, transmitter=tr, state=rec, latency=L, steps_delay=d, initial_cash=65536.0)
+    if late:
+        # price-free events handed to the transmitter AFTER the environment was built (public API); whether they are
+        # delivered is not C08's subject, but the executions must still follow the configured latency
+        tr.add_events([Custom(G[1] + timedelta(seconds=1), 0), Custom(G[2] + timedelta(seconds=L + 1), 1)])
     return env, sink, evs, G
 
 
@@ -148,6 +152,12 @@ def units(tier):
             for pair in itertools.combinations(idx, 2):
                 for d in (0, 2):
                     out.append((nbars, L, d, "box", list(pair)))
+    # events added to the transmitter after the environment was built must not disturb the latency rule
+    for L in (30, 4.1):
+        npos = len(extra_positions(grid(nbars), L))
+        for extras in [[]] + [[i] for i in range(npos)]:
+            for d, space in ((0, "box"), (1, "disc1")):
+                out.append((nbars, L, d, space, extras, True))
     # long episodes: the delay queue must not wrap, drop or repeat decisions after many steps
     for d, space in ((3, "box"), (2, "disc1")) if tier == "quick" else ((0, "box"), (1, "disc1"), (3, "box"), (4, "disc1"), (5, "box")):
         out.append((8 if tier == "quick" else 9, 30, d, space, []))
@@ -156,19 +166,20 @@ def units(tier):
 
 def _work(chunk):
     out = {"evaluations": 0, "violations": [], "outcomes": set(), "nontrivial": set()}
-    for (nbars, L, d, space, extras) in chunk:
+    for unit in chunk:
+        (nbars, L, d, space, extras), late = unit[:5], (len(unit) > 5 and unit[5])
         try:
-            env, sink, evs, G = make_env(nbars, L, d, space, extras)
+            env, sink, evs, G = make_env(nbars, L, d, space, extras, late)
         except Exception as ex:
             out["evaluations"] += 1
-            out["violations"].append(({"nbars": nbars, "L": L, "d": d, "space": space, "extras": extras, "seq": []},
+            out["violations"].append(({"nbars": nbars, "L": L, "d": d, "space": space, "extras": extras, "seq": [], "late": late},
                                       "building the environment raised %r" % (ex,), ("build", space, d)))
             continue
         for si, seq in enumerate(itertools.product(range(3), repeat=nbars - 1)):
             msgs = run_sequence(env, sink, evs, G, L, d, space, seq)
             out["evaluations"] += 1
             tr = env.broker.track_record
-            sig = hash((L, d, space, tuple(extras), tuple(tuple(sorted((str(k), float(v)) for k, v in tr[j].allocation.items())) for j in range(len(tr))),
+            sig = hash((L, d, space, late, tuple(extras), tuple(tuple(sorted((str(k), float(v)) for k, v in tr[j].allocation.items())) for j in range(len(tr))),
                         tuple(t.acq_price for j in range(len(tr)) for t in tr[j].trades)))
             out["outcomes"].add(sig)
             if d > 0 or extras:
@@ -176,11 +187,11 @@ def _work(chunk):
             if msgs:
                 # minimal replay: the sequence alone on a fresh environment if that reproduces it,
                 # otherwise all earlier episodes on the same environment are part of the counterexample
-                alone = replay({"nbars": nbars, "L": L, "d": d, "space": space, "extras": extras, "seq": list(seq), "prior": 0})
+                alone = replay({"nbars": nbars, "L": L, "d": d, "space": space, "extras": extras, "seq": list(seq), "prior": 0, "late": late})
                 prior = 0 if alone else si
                 note = "" if prior == 0 else " (only after %d earlier episodes on the same environment)" % prior
-                out["violations"].append(({"nbars": nbars, "L": L, "d": d, "space": space, "extras": extras, "seq": list(seq), "prior": prior},
-                                          "; ".join(msgs[:3]) + note, (msgs[0].split(" ")[0], space, d, L, prior > 0)))
+                out["violations"].append(({"nbars": nbars, "L": L, "d": d, "space": space, "extras": extras, "seq": list(seq), "prior": prior, "late": late},
+                                          "; ".join(msgs[:3]) + note, (msgs[0].split(" ")[0], space, d, L, prior > 0, late)))
                 if len(out["violations"]) > 50:
                     return out
     return out
@@ -203,7 +214,7 @@ def run(tier, **kw):
     rep.set("rule", "one evaluation = one complete episode; enumerated: 5-bar stream (2 contracts, every bar a distinct price, spread 2) x latency "
                     "{0, 30s, 4.1s, 8.2s} x every subset of <= 1 (quick) / <= 2 (thorough) extra quotes over {t+1s, t+L, t+L+1s, t'-1s} of every consecutive "
                     "pair x delay {0,1,2,3} x {Box, Discrete with zero first allocation, Discrete with non-zero first allocation} x all 3^4 "
-                    "action sequences over 3 pairwise-distinct actions (same environment reused across sequences via reset); non-trivial = "
+                    "action sequences over 3 pairwise-distinct actions, plus the latency > 0 configurations with price-free events added to the transmitter after the environment was built (same environment reused across sequences via reset); non-trivial = "
                     "distinct (allocations executed, trade prices) outcome with delay > 0 or an extra quote")
     rep.set("samples", [{"nbars": 5, "L": 30, "d": 2, "space": "disc1", "extras": [1], "seq": [0, 2, 1, 1]}])
     rep.assumptions = ["with delay > 0 the null action belongs to the space (Box bounds include 0)",
@@ -213,7 +224,7 @@ def run(tier, **kw):
 
 def replay(case, **kw):
     try:
-        env, sink, evs, G = make_env(case["nbars"], case["L"], case["d"], case["space"], case["extras"])
+        env, sink, evs, G = make_env(case["nbars"], case["L"], case["d"], case["space"], case["extras"], case.get("late", False))
     except Exception as ex:
         return ["building the environment raised %r" % (ex,)]
     if not case["seq"]:
